@@ -13,12 +13,13 @@ Two-stage correspondence: the harness runs first and returns its answers togethe
 (eigen-pairs, square roots, fitted coefficients and bounds, tables); the model case = inputs + oracles.
 
 Violation keys (call site : what fails):
-  pca|maf:dbZ2F-dbF2Z-roundtrip, :isotopic-filter, :factors-not-orthonormal, :certificate:<identity>, :compute-fails
+  pca|maf:dbZ2F-dbF2Z-roundtrip, :isotopic-filter, :factors-not-orthonormal, :certificate:<identity>, :compute-fails, :singular-covariance
   hermitePolynomials:recurrence | :size            hermiteCondExpElement:expansion      asan:<function>:<report>:<n>-coefficient-expansion
   AnamHermite:expansion, :raw-gaussian-raw-roundtrip, :rawToTransformValue-not-monotone, :bound, :undefined-in, :db-transform-fails|-undefined, :fit-fails
   AAnam:rawToGaussianByLocator | AAnam:gaussianToRawByLocator
   normalScore:rank, :undefined, :refusal, :size, :not-monotone, :db-selection, :db-fails
-  AnamEmpirical:fit-table, :raw-gaussian-raw-roundtrip, :not-monotone, :undefined-in, :fit-fails
+  AnamEmpirical:fit-table, :raw-gaussian-raw-roundtrip, :not-monotone, :undefined-in, :fit-fails, :fit-throws, :fit-accepts-degenerate-data
+  AnamHermite:bounds-inverted, :fit-throws, :fit-accepts-degenerate-data     asan:<function>:<report>:degenerate-data
   Rotation:inverse-not-transpose, :certificate, :direct-inverse-roundtrip
   model-drift:<kind>:<quantity>  (impl satisfies the property on every explored input but differs from the model)   crash:<kind>
 """
